@@ -64,12 +64,44 @@ def _md():
 def _load(name):
     if name not in _G["traj"]:
         md = _md()
-        t = ds.get(md, _G["repo"], name, _G["seed"])
+        if name.endswith("@edited"):
+            t = _edited(md, ds.get(md, _G["repo"], name[:-7], _G["seed"]))
+        else:
+            t = ds.get(md, _G["repo"], name, _G["seed"])
         _G["traj"][name] = t
         _G["tab"][name] = ds.table(t)
         _G["x64"][name] = t.xyz.astype(np.float64)
         _G["vec"][name] = None if t.unitcell_vectors is None else t.unitcell_vectors.astype(np.float64)
     return _G["traj"][name]
+
+
+def _edited(md, t):
+    """The SAME Trajectory/Topology objects after a first round of descriptor calls and an in-place edit of the
+    topology (elements -> masses, one residue name -> is_protein): every topology reachable by editing is a
+    topology of the property, and anything remembered from the first round (masses, selections, residue classes,
+    pair lists) must not survive the edit.  The oracle tables are built AFTER the edit."""
+    with warnings.catch_warnings():
+        warnings.simplefilter("ignore")
+        for call in (lambda: md.compute_center_of_mass(t), lambda: md.compute_center_of_mass(t, select="protein"),
+                     lambda: md.compute_center_of_geometry(t), lambda: md.compute_rg(t), lambda: md.compute_inertia_tensor(t),
+                     lambda: md.compute_gyration_tensor(t), lambda: md.density(t), lambda: md.compute_drid(t),
+                     lambda: md.compute_directors(t), lambda: md.compute_nematic_order(t),
+                     lambda: t.topology.select("protein and sidechain"), lambda: t.topology.select("mass > 13"),
+                     lambda: [md.compute_contacts(t, contacts="all", scheme=sc) for sc in SCHEMES],
+                     lambda: md.compute_contacts(t, contacts="all", scheme="closest-heavy", ignore_nonprotein=False),
+                     lambda: (md.compute_phi(t), md.compute_psi(t)), lambda: md.Trajectory(t.xyz.copy(), t.topology).center_coordinates(mass_weighted=True)):
+            try:
+                call()
+            except Exception:  # noqa: BLE001  (a descriptor undefined for this structure: nothing to remember)
+                pass
+    swap = {"CB": md.element.nitrogen, "O": md.element.sulfur, "OW": md.element.sulfur}
+    for a in t.topology.atoms:
+        if a.name in swap and a.residue.index % 2 == 0:
+            a.element = swap[a.name]
+    prot = [r for r in t.topology.residues if r.is_protein and r.name not in ("ACE", "NME")]
+    if len(prot) >= 5:
+        prot[len(prot) // 2].name = "LIG"       # a mid-chain residue becomes non-protein
+    return t
 
 
 def _dmat(name, periodic):
@@ -1040,6 +1072,7 @@ def _jobs(quick):
         structs = ["pep", "pep_tri", "pep_heavy", "frag_2EQQ", "frag_1vii"]
     else:
         structs = [s for s in ds.STRUCTS if not s.startswith("wat")]
+    structs = structs + (["pep@edited"] if quick else ["pep@edited", "frag_1vii@edited", "frag_2EQQ@edited"])
     cstructs = list(structs)
     if not quick:
         from vlib import grids
